@@ -5,13 +5,13 @@
 #include "basis_spec_c.h"
 int* gp_cntR; int* gp_cntC; const void* gp_arrR; const void* gp_arrC; int g_cnt_desc;
 int* gp_bind; int* gp_rows; int* gp_cols; int* gp_orow; int* gp_ocol; double* gp_low; double* gp_up; int* gp_cr; int* gp_cc;
-int g_p, v_enc, v_slack_c, v_srow, v_scol, k_BASIC;
+int g_p, v_enc, v_slack_c, v_srow, v_scol, k_BASIC, v_rank_r, v_rank_c;
 static void havoc_ghosts(void)
 {
    g_nr = nondet_int(); g_nc = nondet_int(); g_r = nondet_int(); g_c = nondet_int(); v_r = nondet_int(); v_c = nondet_int();
    v_exp_r = nondet_int(); v_exp_c = nondet_int(); g_valid_r = nondet_int(); g_valid_c = nondet_int();
    v_old_r = nondet_int(); v_old_c = nondet_int(); g_throw_allowed = nondet_int(); g_cnt_desc = nondet_int();
-   g_p = nondet_int(); v_enc = nondet_int(); v_slack_c = nondet_int(); v_srow = nondet_int(); v_scol = nondet_int(); k_BASIC = nondet_int();
+   g_p = nondet_int(); v_enc = nondet_int(); v_slack_c = nondet_int(); v_srow = nondet_int(); v_scol = nondet_int(); k_BASIC = nondet_int(); v_rank_r = nondet_int(); v_rank_c = nondet_int();
 }
 #define IN(i, n) (0 <= (i) && (i) < (n))
 /* slack basis reported for columns when no basis is available (comment in soplex.hpp: "return slack basis") */
@@ -87,7 +87,7 @@ void h_SoPlex_getBasis(void)
 #define ROWQ_BASIC(i) (!hasBasis ? 1 : loaded ? rowstat[i] >= 0 : srows[i] == BASIC)
 #define COLQ_BASIC(j) (!hasBasis ? 0 : loaded ? colstat[j] >= 0 : scols[j] == BASIC)
 /* b encodes a basic variable: >= 0 column b, < 0 row -1-b */
-#define NAMES_BASIC(b) ((b) < 0 ? (-1 - (b) < nr && ROWQ_BASIC(-1 - (b))) : ((b) < nc && COLQ_BASIC(b)))
+#define NAMES_BASIC(b) ((b) < 0 ? ((b) >= -nr && ROWQ_BASIC(-1 - (b))) : ((b) < nc && COLQ_BASIC(b)))
 #define COUNTED (hasBasis && (!loaded || rep == -1))     /* the two branches that enumerate the status arrays */
 #define COLUMN_LOADED (hasBasis && loaded && rep == 1)
 void w_getBasisInd(int* bind, int hasBasis, int loaded, int rep, int* srows, int* scols, int* rowstat, int* colstat,
@@ -104,21 +104,24 @@ __CPROVER_requires(cntR[0] == 0 && cntC[0] == 0 && 0 <= cntR[nr] && cntR[nr] <= 
 __CPROVER_requires(COUNTED ==> cntR[nr] + cntC[nc] == nr)
 /* basis invariant in COLUMN representation: the i-th basis vector is a row or column whose descriptor status is dual */
 __CPROVER_requires(GHOST_IN(g_p, nr) && GHOST_IN(g_r, nr) && GHOST_IN(g_c, nc))
+/* ... also at the ghost indices: 0 <= cnt[n] <= n; v_rank_r / v_rank_c = the position the ghost row / column must get */
+__CPROVER_requires(0 <= cntR[g_r] && cntR[g_r] <= g_r && 0 <= cntC[g_c] && cntC[g_c] <= g_c)
+__CPROVER_requires(v_rank_r == cntR[g_r] && v_rank_c == cntR[nr] + cntC[g_c])
 __CPROVER_requires((COLUMN_LOADED && nr > 0) ==> (idinfo[g_p] > 0 ? (IN(idnum[g_p], nc) && colstat[idnum[g_p]] >= 0)
                                                   : (idinfo[g_p] < 0 && IN(idnum[g_p], nr) && rowstat[idnum[g_p]] >= 0)))
 __CPROVER_requires(v_enc == (idinfo[g_p] > 0 ? idnum[g_p] : -1 - idnum[g_p]))
 __CPROVER_requires(g_throw_allowed == 0)
 __CPROVER_assigns(gp_rows, gp_cols, gp_low, gp_up, gp_arrR, gp_arrC, gp_cntR, gp_cntC, gp_bind, gp_cr, gp_cc, __CPROVER_object_whole(bind))
 /* every position 0..numRows-1 is written with the index of a variable whose status query says BASIC */
-#ifndef EXP_RANK
+#ifndef CLAIM_RANK
 __CPROVER_ensures(nr > 0 ==> NAMES_BASIC(bind[g_p]))
 #endif
 __CPROVER_ensures((!hasBasis && nr > 0) ==> bind[g_p] == -1 - g_p)
 __CPROVER_ensures((COLUMN_LOADED && nr > 0) ==> bind[g_p] == (idinfo[g_p] > 0 ? idnum[g_p] : -1 - idnum[g_p]))
 /* no gaps, nothing lost: the basic row with r basic rows before it sits at position r; basic columns follow the rows */
-#ifndef EXP_POS
-__CPROVER_ensures((COUNTED && nr > 0 && ROWQ_BASIC(g_r)) ==> (IN(cntR[g_r], nr) && bind[cntR[g_r]] == -1 - g_r))
-__CPROVER_ensures((COUNTED && nc > 0 && COLQ_BASIC(g_c)) ==> (IN(cntR[nr] + cntC[g_c], nr) && bind[cntR[nr] + cntC[g_c]] == g_c))
+#ifndef CLAIM_POS
+__CPROVER_ensures((COUNTED && nr > 0 && ROWQ_BASIC(g_r)) ==> (IN(v_rank_r, nr) && v_rank_r == cntR[g_r] && bind[v_rank_r] == -1 - g_r))
+__CPROVER_ensures((COUNTED && nc > 0 && COLQ_BASIC(g_c)) ==> (IN(v_rank_c, nr) && v_rank_c == cntR[nr] + cntC[g_c] && bind[v_rank_c] == g_c))
 #endif
 ;
 void h_getBasisInd(void)
